@@ -94,6 +94,7 @@ def run(res, proof):
             both('canonical_form', Lc.canonical_form, C.canonical_form, desc)
             both('size', Lc.size, C.size, desc)
             both('is_connected', Lc.is_connected, C.is_connected, desc)
+            both('strand_lengths', [Lc.strand_length(i) for i in range(Lc.size)], [C.strand_length(i) for i in range(C.size)], desc)
             both('sequence-after-canon', (list(map(str, Lc.sequence)), Lc.structure), (list(rn), list(rs)), desc)
             li_l = outcome(lambda: Lc.loop_index)
             li_c = outcome(lambda: cux.make_loop_index(cux.make_pair_table(list(rs))))
@@ -113,6 +114,22 @@ def run(res, proof):
             both('wrapper:make_pair_table', utils.make_pair_table(list(rs)), cux.make_pair_table(list(rs)), desc)
             both('wrapper:pair_table_to_dot_bracket', utils.pair_table_to_dot_bracket(cux.make_pair_table(list(rs))), list(rs), desc)
             both('wrapper:make_lol_sequence', utils.make_lol_sequence(list(rn)), cux.make_strand_table(list(rn)), desc)
+            # the wrappers take the optional arguments of the functions they stand for, by position and by keyword
+            amp = [('&' if x == '+' else x) for x in rs]
+            spaced = list(' '.join(rs))
+            pt_c = cux.make_pair_table(list(rs))
+            for nm, w, c in (
+                    ('make_pair_table(strand_break=)', lambda: utils.make_pair_table(list(amp), strand_break='&'), lambda: cux.make_pair_table(list(amp), strand_break='&')),
+                    ('make_pair_table(positional strand_break)', lambda: utils.make_pair_table(list(amp), '&'), lambda: cux.make_pair_table(list(amp), '&')),
+                    ('make_pair_table(ignore=)', lambda: utils.make_pair_table(list(spaced), ignore=set(' ')), lambda: cux.make_pair_table(list(spaced), ignore=set(' '))),
+                    ('make_pair_table(strand_break=, ignore=)', lambda: utils.make_pair_table(list(rs), strand_break='&', ignore=set('+')),
+                     lambda: cux.make_pair_table(list(rs), strand_break='&', ignore=set('+'))),
+                    ('pair_table_to_dot_bracket(strand_break=)', lambda: utils.pair_table_to_dot_bracket(pt_c, strand_break='&'), lambda: cux.pair_table_to_dot_bracket(pt_c, strand_break='&')),
+                    ('pair_table_to_dot_bracket(join=)', lambda: utils.pair_table_to_dot_bracket(pt_c, join=True), lambda: cux.pair_table_to_dot_bracket(pt_c, join=True)),
+                    ('pair_table_to_dot_bracket(positional join)', lambda: utils.pair_table_to_dot_bracket(pt_c, True), lambda: cux.pair_table_to_dot_bracket(pt_c, True))):
+                both('wrapper:' + nm, outcome(w), outcome(c), desc)
+            both('wrapper:make_pair_table(strand_break=) value', outcome(lambda: utils.make_pair_table(list(amp), strand_break='&')), outcome(lambda: cux.make_pair_table(list(rs))), desc)
+            both('wrapper:pair_table_to_dot_bracket(join=) value', outcome(lambda: utils.pair_table_to_dot_bracket(pt_c, join=True)), outcome(lambda: ''.join(rs)), desc)
             # duplicates: every rotation of the registered complex is detected, with the existing object and the rotation equation
             for k2, (rn2, rs2) in enumerate(rots):
                 try:
@@ -132,6 +149,16 @@ def run(res, proof):
                 if cur is not C:
                     res.violation('current-does-not-return-existing', desc, 'another object', 'the existing object')
                 del cur
+            # memorycheck=False builds a second legacy object for a rotation of the registered complex: the two compare and hash
+            # equal (canonical form), exactly as the current API answers with the one existing object
+            rn2, rs2 = rots[(k + 1) % n]
+            tw = outcome(lambda: dep.DSD_Complex(list(rn2), list(rs2), name='Ltwin', memorycheck=False))
+            if tw[0] != 'ok':
+                res.violation('legacy-differs:memorycheck-off-raises', desc, tw[1], 'a second legacy object')
+            else:
+                both('twin-equal-and-hash', (tw[1] == Lc, tw[1] != Lc, hash(tw[1]) == hash(Lc), tw[1].canonical_form == Lc.canonical_form), (True, False, True, True), desc)
+                dep.DSD_Complex.NAMES.pop('Ltwin', None)
+            del tw
             # a REFUSED construction registers nothing in either model: the inequivalent complex is first requested under
             # the taken names (both models refuse), then - in another rotation - under free names (both create it)
             other = gen.label(s, rng, ['a', 'b'])
@@ -176,6 +203,11 @@ def run(res, proof):
         sc = dep.SequenceConstraint(s_all, molecule=mol)
         both('SequenceConstraint.complement', sc.complement, iu.complement(s_all, material=mol), {'seq': s_all, 'mol': mol})
         both('SequenceConstraint.reverse_complement', sc.reverse_complement, iu.reverse_complement(s_all, material=mol), {'seq': s_all, 'mol': mol})
+        # the operator and container forms of the same answers: ~x is the reverse complement, len / str / == follow the constraint
+        inv = outcome(lambda: (~sc).constraint)
+        both('SequenceConstraint.__invert__', inv, ('ok', iu.reverse_complement(s_all, material=mol)), {'seq': s_all, 'mol': mol})
+        both('SequenceConstraint.len/str', (len(sc), str(sc), sc == dep.SequenceConstraint(list(s_all), molecule=mol), sc != dep.SequenceConstraint(s_all + 'N', molecule=mol)),
+             (len(s_all), s_all, True, True), {'seq': s_all, 'mol': mol})
         sw = dep.SequenceConstraint(s_wc, molecule=mol)
         both('SequenceConstraint.wc_complement', sw.wc_complement, iu.wc_complement(s_wc, material=mol), {'seq': s_wc, 'mol': mol})
         both('SequenceConstraint.reverse_wc_complement', sw.reverse_wc_complement, iu.reverse_wc_complement(s_wc, material=mol), {'seq': s_wc, 'mol': mol})
